@@ -304,6 +304,10 @@ def run(tier, r):
 
 
 def replay(case):
+    if case.get("clause") == "value_when_coexisting":
+        viol = coexisting_rows(case["family"], case["batch_rows"], case.get("tier", "quick"))
+        hit = [c for c in viol if c["row"] == case["row"] and c["table"] == case["table"]]
+        return {"reproduced": bool(hit), "detail": hit[0]["observed"] if hit else {"violations_found": len(viol)}}
     if case["part"] == "metadata":
         res, err = oc.guarded(check_metadata, case["family"], tuple(case["args"]))
     else:
